@@ -825,7 +825,17 @@ func (e *Engine) intrinsic(fr *frame, name string, args []Value) (Value, bool) {
 		}
 		return nil, true
 	case "verifIte64":
-		return tb.Ite(args[0].(*Term), args[1].(*Term), args[2].(*Term)), true
+		a, b := args[1].(*Term), args[2].(*Term)
+		if e.mode == "int" {
+			// integer mode: bit-vector constants become mathematical integers
+			if a.IsConst() && a.Sort.K == SBV {
+				a = tb.IntConst64(sext(a.U, 64))
+			}
+			if b.IsConst() && b.Sort.K == SBV {
+				b = tb.IntConst64(sext(b.U, 64))
+			}
+		}
+		return tb.Ite(args[0].(*Term), a, b), true
 	case "verifImplies":
 		return tb.Implies(args[0].(*Term), args[1].(*Term)), true
 	case "verifAnd":
